@@ -257,6 +257,10 @@ def obsStep (d : ObsDrv) (toks : List String) : Option (ObsDrv × String) :=
       match w.dropOwner h with
       | some (w', wk) => some ({ d with w := w' }, "ok" ++ showWokeO w' wk)
       | none => bad
+    | "hdropu", some h, [] =>     -- dropped by unwinding: the same drop
+      match w.dropOwner h with
+      | some (w', wk) => some ({ d with w := w' }, "ok" ++ showWokeO w' wk)
+      | none => bad
     | "hdown", some h, [] =>
       match w.downgrade h with
       | some (w', id) => some ({ d with w := w' }, toString id)
